@@ -730,7 +730,10 @@ func (s *Store[K, V]) sinkWrite(item WriteBufItem[K, V]) {
 		entry.flag.SetDeleted(true)
 	}
 
-	if item.fromNVM {
+	// an update that overtook this insert event replaced the value the secondary
+	// cache was holding (and invalidated that copy): the entry is not clean then,
+	// and must be written back when it is evicted
+	if item.fromNVM && !entry.flag.IsUpdatedEarly() {
 		entry.flag.SetFromNVM(item.fromNVM)
 	}
 
@@ -745,6 +748,7 @@ func (s *Store[K, V]) sinkWrite(item WriteBufItem[K, V]) {
 	switch item.code {
 	case NEW:
 		entry.flag.SetRemoved(false)
+		entry.flag.SetUpdatedEarly(false)
 		if expire := entry.expire.Load(); expire != 0 {
 			if expire <= s.timerwheel.clock.NowNano() {
 				s.removeEntry(entry, EXPIRED)
@@ -789,6 +793,7 @@ func (s *Store[K, V]) sinkWrite(item WriteBufItem[K, V]) {
 
 		// create/update race
 		if entry.meta.prev == nil {
+			entry.flag.SetUpdatedEarly(true)
 			return
 		}
 
